@@ -1,9 +1,19 @@
-(* A tiny deep embedding of the Go subset used by gribigo's pure decision
-   functions (isNewMaster, checkElectionForModify, checkFlushRequest).
+(* A tiny deep embedding of the Go subset used by gribigo's decision functions
+   (isNewMaster, checkElectionForModify, checkFlushRequest, runElection,
+   checkParams, deleteClient, the dispatch switch of Modify's receive loop).
    tools/gen_decisions serialises the function bodies of the current source
    into this syntax (Generated/Decisions.v); the semantics below is fixed and
-   hand-written.  [None] = the Go code would panic (nil dereference) or uses a
-   construct outside the subset. *)
+   hand-written.  [None] / [RPanic] = the Go code would panic (nil dereference)
+   or uses a construct outside the subset.
+
+   State.  A method's receiver is an ordinary variable of the environment bound
+   to a [VPtr] of its fields.  The translator guarantees that the receiver is
+   never copied, re-declared or passed on (it only occurs as [recv.field] and
+   [recv.method(...)]), and the only field assignment of the subset is
+   [recv.field = e]; pointees are therefore immutable inside the subset and
+   value semantics for [VPtr] is sound.  Methods of the receiver that are not
+   translated are *oracle calls*: their meaning is the table [mcall] below
+   (hand-written from the Go text, see DESIGN.md). *)
 From Coq Require Import List String NArith ZArith Bool.
 From GV.Base Require Import U128.
 Import ListNotations.
@@ -29,13 +39,23 @@ Inductive gexpr :=
 | EBin (op : string) (a b : gexpr)
 | ENot (e : gexpr)
 | ECall (fn : string) (args : list gexpr)
-| EOpaque (tag : string).
+| EOpaque (tag : string)
+| EConst (name : string)                              (* spb.<enum constant> *)
+| ENew (ty : string) (kvs : list (string * gexpr))    (* T{k: e, ...} / &T{...}, T a struct of package server *)
+| EMsg (ty : string) (kvs : list (string * gexpr)).   (* &spb.T{k: e, ...} *)
 
 Inductive gstmt :=
-| SIf (c : gexpr) (th el : list gstmt)
-| SAssign (x : string) (e : gexpr)
+| SIf (c : gexpr) (th el : list gstmt)                (* also: a block ([SIf (EBool true) l []]) *)
+| SDecl (x : string) (e : gexpr)                      (* x := e *)
+| SSet (x : string) (e : gexpr)                       (* x = e, x a variable in scope *)
+| SSetField (r f : string) (e : gexpr)                (* r.f = e, r the receiver *)
+| SCallF (decl : bool) (xs : list string) (fn : string) (args : list gexpr)
+                                                      (* xs := fn(args) / xs = fn(args), fn a translated function *)
+| SCallM (decl : bool) (xs : list string) (r : string) (fn : string) (args : list gexpr)
+                                                      (* xs := r.fn(args), r the receiver: may change r's fields *)
+| SDelete (r f : string) (k : gexpr)                  (* delete(r.f, k) *)
 | SReturn (rs : list gexpr)
-| SSkip.
+| SSkip.                                              (* logging, Lock/Unlock/defer Unlock of a mutex field *)
 
 Definition env := list (string * gval).
 
@@ -43,6 +63,15 @@ Fixpoint lookup (x : string) (e : list (string * gval)) : option gval :=
   match e with
   | [] => None
   | (y, v) :: tl => if String.eqb x y then Some v else lookup x tl
+  end.
+
+(* assignment to an existing variable / field: the first binding is replaced in place *)
+Fixpoint set_first (x : string) (v : gval) (e : list (string * gval)) : option (list (string * gval)) :=
+  match e with
+  | [] => None
+  | (y, w) :: tl =>
+    if String.eqb x y then Some ((y, v) :: tl)
+    else match set_first x v tl with Some tl' => Some ((y, w) :: tl') | None => None end
   end.
 
 Definition cmp_int (c : comparison) : Z := match c with Lt => (-1)%Z | Eq => 0%Z | Gt => 1%Z end.
@@ -66,6 +95,9 @@ Definition bin (op : string) (a0 b0 : gval) : option gval :=
   | "==", VNil, VPtr _ | "==", VPtr _, VNil => Some (VBool false)
   | "!=", VNil, VNil => Some (VBool false)
   | "!=", VNil, VPtr _ | "!=", VPtr _, VNil => Some (VBool true)
+  (* a constructed error / response is not nil *)
+  | "==", VNil, VOpaque _ | "==", VOpaque _, VNil => Some (VBool false)
+  | "!=", VNil, VOpaque _ | "!=", VOpaque _, VNil => Some (VBool true)
   | "==", VU64 x, VU64 y => Some (VBool (N.eqb x y))
   | "!=", VU64 x, VU64 y => Some (VBool (negb (N.eqb x y)))
   | "<", VU64 x, VU64 y => Some (VBool (N.ltb x y))
@@ -85,6 +117,29 @@ Definition bin (op : string) (a0 b0 : gval) : option gval :=
   | _, _, _ => None
   end.
 
+(* enum numbers of gribi.proto (v1/proto/service/gribi.proto; wire-level constants) *)
+Definition enum_val (name : string) : option gval :=
+  match name with
+  | "SessionParameters_ALL_PRIMARY" => Some (VInt 0)
+  | "SessionParameters_SINGLE_PRIMARY" => Some (VInt 1)
+  | "SessionParameters_DELETE" => Some (VInt 0)
+  | "SessionParameters_PRESERVE" => Some (VInt 1)
+  | "SessionParameters_RIB_ACK" => Some (VInt 0)
+  | "SessionParameters_RIB_AND_FIB_ACK" => Some (VInt 1)
+  | "SessionParametersResult_OK" => Some (VInt 0)
+  | _ => None
+  end.
+
+(* zero values of the struct types of server.go that are built by literals *)
+Definition struct_zero (ty : string) : option (list (string * gval)) :=
+  match ty with
+  | "clientParams" => Some [("Persist", VBool false); ("ExpectElecID", VBool false); ("FIBAck", VBool false)]
+  | "clientState" => Some [("params", VNil); ("setParams", VBool false); ("lastElecID", VNil)]
+  | _ => None
+  end.
+
+(* pure calls: constructors / methods of values, nil-safe protobuf getters, and read-only
+   methods of the receiver *)
 Definition call (fn : string) (args : list gval) : option gval :=
   match fn, args with
   | "uint128.New", [VU64 l; VU64 h] => Some (VU128 h l)
@@ -104,6 +159,129 @@ Definition call (fn : string) (args : list gval) : option gval :=
          | Some v => Some v | None => None end
     else None
   | _, _ => None
+  end.
+
+(* ---------------- the client table (Server.cs : map[string]*clientState) ----------------
+   A Go map as an association list keyed by string data; the first binding of a key counts. *)
+Fixpoint tbl_get (k : string) (t : list (string * gval)) : option gval :=
+  match t with
+  | [] => None
+  | (y, v) :: tl => if data_str_eqb k y then Some v else tbl_get k tl
+  end.
+Fixpoint tbl_set (k : string) (v : gval) (t : list (string * gval)) : list (string * gval) :=
+  match t with
+  | [] => [(k, v)]
+  | (y, w) :: tl => if data_str_eqb k y then (y, v) :: tl else (y, w) :: tbl_set k v tl
+  end.
+Fixpoint tbl_del (k : string) (t : list (string * gval)) : list (string * gval) :=
+  match t with
+  | [] => []
+  | (y, w) :: tl => if data_str_eqb k y then tbl_del k tl else (y, w) :: tbl_del k tl
+  end.
+
+Definition cp_view (ps : list (string * gval)) : option (bool * bool * bool) :=
+  match lookup "Persist" ps, lookup "ExpectElecID" ps, lookup "FIBAck" ps with
+  | Some (VBool a), Some (VBool b), Some (VBool c) => Some (a, b, c)
+  | _, _, _ => None
+  end.
+(* clientParams.Equal *)
+Definition cp_equal (x y : bool * bool * bool) : bool :=
+  let '(a, b, c) := x in let '(a', b', c') := y in Bool.eqb a a' && Bool.eqb c c' && Bool.eqb b b'.
+
+(* the loop of checkClientsConsistent over the entries other than [id]:
+   (some entry is nil or has nil params, some entry has different params) *)
+Fixpoint tbl_scan (id : string) (cp : bool * bool * bool) (t : list (string * gval)) : bool * bool :=
+  match t with
+  | [] => (false, false)
+  | (y, v) :: tl =>
+    let '(mal, mis) := tbl_scan id cp tl in
+    if data_str_eqb id y then (mal, mis) else
+    match v with
+    | VPtr rec =>
+      match lookup "params" rec with
+      | Some (VPtr ps) =>
+        match cp_view ps with
+        | Some cp' => (mal, negb (cp_equal cp' cp) || mis)
+        | None => (true, mis)
+        end
+      | _ => (true, mis)
+      end
+    | _ => (true, mis)
+    end
+  end.
+
+Definition err_plain : gval := VOpaque "err:plain".    (* fmt.Errorf(...): an error without a gRPC status *)
+
+(* ---------------- oracle calls: untranslated methods of *Server ----------------
+   [mcall fn receiver args = Some (results, receiver')].  Anything not listed is a pure call. *)
+Definition mcall (fn : string) (recv : gval) (args : list gval) : option (list gval * gval) :=
+  match recv with
+  | VPtr fs =>
+    match lookup "cs" fs with
+    | Some (VPtr tbl) =>
+      match fn, args with
+      | "getClientStateCopy", [VStr id] =>
+        (* if s.cs[id] == nil { return nil, fmt.Errorf } ; return s.cs[id].DeepCopy(), nil
+           DeepCopy keeps a copy of params only *)
+        match tbl_get id tbl with
+        | None | Some VNil => Some ([VNil; err_plain], recv)
+        | Some (VPtr rec) =>
+          match lookup "params" rec with
+          | Some VNil => Some ([VPtr [("params", VNil); ("setParams", VBool false); ("lastElecID", VNil)]; VNil], recv)
+          | Some (VPtr ps) => Some ([VPtr [("params", VPtr ps); ("setParams", VBool false); ("lastElecID", VNil)]; VNil], recv)
+          | _ => None
+          end
+        | _ => None
+        end
+      | "storeClientElectionID", [VStr id; e] =>
+        (* cs, ok := s.cs[id]; if !ok { return false }; cs.lastElecID = elecID; return true *)
+        match tbl_get id tbl with
+        | None => Some ([VBool false], recv)
+        | Some (VPtr rec) =>
+          match set_first "lastElecID" e rec with
+          | Some rec' =>
+            match set_first "cs" (VPtr (tbl_set id (VPtr rec') tbl)) fs with
+            | Some fs' => Some ([VBool true], VPtr fs')
+            | None => None
+            end
+          | None => None
+          end
+        | _ => None       (* a nil entry: the Go code dereferences it *)
+        end
+      | "setClientParams", [VStr id; p] =>
+        (* if s.cs[id] == nil { return fmt.Errorf }; s.cs[id].params = p; return nil *)
+        match tbl_get id tbl with
+        | None | Some VNil => Some ([err_plain], recv)
+        | Some (VPtr rec) =>
+          match set_first "params" p rec with
+          | Some rec' =>
+            match set_first "cs" (VPtr (tbl_set id (VPtr rec') tbl)) fs with
+            | Some fs' => Some ([VNil], VPtr fs')
+            | None => None
+            end
+          | None => None
+          end
+        | _ => None
+        end
+      | "checkClientsConsistent", [VStr id; VNil] => Some ([VBool false; err_plain], recv)
+      | "checkClientsConsistent", [VStr id; VPtr ps] =>
+        (* for cid, state := range s.cs: skip id; nil state / nil params -> (false, err);
+           !state.params.Equal(p) -> (false, nil); at the end (true, nil).  The map order is
+           arbitrary: the result is determined unless both kinds of entry are present. *)
+        match cp_view ps with
+        | Some cp =>
+          match tbl_scan id cp tbl with
+          | (false, mis) => Some ([VBool (negb mis); VNil], recv)
+          | (true, false) => Some ([VBool false; err_plain], recv)
+          | (true, true) => None
+          end
+        | None => None
+        end
+      | _, _ => match call fn (recv :: args) with Some v => Some ([v], recv) | None => None end
+      end
+    | _ => match call fn (recv :: args) with Some v => Some ([v], recv) | None => None end
+    end
+  | _ => None
   end.
 
 Fixpoint eval (en : env) (e : gexpr) {struct e} : option gval :=
@@ -144,6 +322,28 @@ Fixpoint eval (en : env) (e : gexpr) {struct e} : option gval :=
        | a :: tl => match eval en a with Some v => evs tl (v :: acc) | None => None end
        end) args []
   | EOpaque t => Some (VOpaque t)
+  | EConst c => enum_val c
+  | ENew ty kvs =>
+    (* the zero value of the struct, then the listed fields in source order *)
+    match struct_zero ty with
+    | None => None
+    | Some z =>
+      (fix go (l : list (string * gexpr)) (acc : list (string * gval)) : option gval :=
+         match l with
+         | [] => Some (VPtr acc)
+         | (k, a) :: tl =>
+           match eval en a with
+           | Some v => match set_first k v acc with Some acc' => go tl acc' | None => None end
+           | None => None
+           end
+         end) kvs z
+    end
+  | EMsg ty kvs =>
+    (fix go (l : list (string * gexpr)) (acc : list (string * gval)) : option gval :=
+       match l with
+       | [] => Some (VPtr (("#type", VStr ty) :: rev acc))
+       | (k, a) :: tl => match eval en a with Some v => go tl ((k, v) :: acc) | None => None end
+       end) kvs []
   end.
 
 Fixpoint evals (en : env) (l : list gexpr) : option (list gval) :=
@@ -152,31 +352,165 @@ Fixpoint evals (en : env) (l : list gexpr) : option (list gval) :=
   | a :: tl => match eval en a, evals en tl with Some v, Some vs => Some (v :: vs) | _, _ => None end
   end.
 
-Inductive outcome := Panic | Fall (en : env) | Ret (vs : list gval).
+(* results of a call bound to the variables on the left ("_" discards; no variables = a call
+   used as a statement) *)
+Fixpoint bind_res (decl : bool) (xs : list string) (vs : list gval) (en : env) : option env :=
+  match xs, vs with
+  | [], _ => Some en
+  | x :: xt, v :: vt =>
+    if String.eqb x "_" then bind_res decl xt vt en else
+    match (if decl then Some ((x, v) :: en) else set_first x v en) with
+    | Some en' => bind_res decl xt vt en'
+    | None => None
+    end
+  | _ :: _, [] => None
+  end.
 
-Fixpoint exec_s (en : env) (s : gstmt) {struct s} : outcome :=
-  let exec_l :=
-      fix exec_l (en : env) (l : list gstmt) {struct l} : outcome :=
-        match l with
-        | [] => Fall en
-        | s' :: tl => match exec_s en s' with Fall en' => exec_l en' tl | o => o end
-        end in
-  match s with
-  | SSkip => Fall en
-  | SAssign x e => match eval en e with Some v => Fall ((x, v) :: en) | None => Panic end
-  | SReturn rs => match evals en rs with Some vs => Ret vs | None => Panic end
-  | SIf c th el =>
-    match eval en c with
-    | Some (VBool true) => match exec_l en th with Fall _ => Fall en | o => o end
-    | Some (VBool false) => match exec_l en el with Fall _ => Fall en | o => o end
-    | _ => Panic
+(* leaving a block: the variables declared inside (pushed in front) disappear, assignments to
+   outer variables (made in place) stay *)
+Definition restore (outer inner : env) : env := skipn (List.length inner - List.length outer) inner.
+
+Inductive result := RPanic | RFall (en : env) | RRet (en : env) (vs : list gval).
+
+Section Exec.
+  (* calls of translated functions *)
+  Variable callf : string -> list gval -> option (list gval).
+
+  Fixpoint exec_s (en : env) (s : gstmt) {struct s} : result :=
+    let exec_l :=
+        fix exec_l (en : env) (l : list gstmt) {struct l} : result :=
+          match l with
+          | [] => RFall en
+          | s' :: tl => match exec_s en s' with RFall en' => exec_l en' tl | o => o end
+          end in
+    match s with
+    | SSkip => RFall en
+    | SDecl x e =>
+      match eval en e with
+      | Some v => RFall (if String.eqb x "_" then en else (x, v) :: en)
+      | None => RPanic
+      end
+    | SSet x e =>
+      match eval en e with
+      | Some v =>
+        if String.eqb x "_" then RFall en else
+        match set_first x v en with Some en' => RFall en' | None => RPanic end
+      | None => RPanic
+      end
+    | SSetField r f e =>
+      match eval en e, lookup r en with
+      | Some v, Some (VPtr fs) =>
+        match set_first f v fs with
+        | Some fs' => match set_first r (VPtr fs') en with Some en' => RFall en' | None => RPanic end
+        | None => RPanic
+        end
+      | _, _ => RPanic
+      end
+    | SCallF d xs fn args =>
+      match evals en args with
+      | Some vs =>
+        match callf fn vs with
+        | Some rs => match bind_res d xs rs en with Some en' => RFall en' | None => RPanic end
+        | None => RPanic
+        end
+      | None => RPanic
+      end
+    | SCallM d xs r fn args =>
+      match lookup r en, evals en args with
+      | Some rv, Some vs =>
+        match mcall fn rv vs with
+        | Some (rs, rv') =>
+          match set_first r rv' en with
+          | Some en1 => match bind_res d xs rs en1 with Some en' => RFall en' | None => RPanic end
+          | None => RPanic
+          end
+        | None => RPanic
+        end
+      | _, _ => RPanic
+      end
+    | SDelete r f k =>
+      match lookup r en, eval en k with
+      | Some (VPtr fs), Some (VStr key) =>
+        match lookup f fs with
+        | Some (VPtr tbl) =>
+          match set_first f (VPtr (tbl_del key tbl)) fs with
+          | Some fs' => match set_first r (VPtr fs') en with Some en' => RFall en' | None => RPanic end
+          | None => RPanic
+          end
+        | _ => RPanic
+        end
+      | _, _ => RPanic
+      end
+    | SReturn rs => match evals en rs with Some vs => RRet en vs | None => RPanic end
+    | SIf c th el =>
+      match eval en c with
+      | Some (VBool true) => match exec_l en th with RFall en' => RFall (restore en en') | o => o end
+      | Some (VBool false) => match exec_l en el with RFall en' => RFall (restore en en') | o => o end
+      | _ => RPanic
+      end
+    end.
+
+  Fixpoint run_l (en : env) (l : list gstmt) {struct l} : result :=
+    match l with
+    | [] => RFall en
+    | s' :: tl => match exec_s en s' with RFall en' => run_l en' tl | o => o end
+    end.
+End Exec.
+
+(* ---------------- translated functions calling translated functions ---------------- *)
+Definition fundefs := list (string * (list string * list gstmt)).
+
+Fixpoint lookup_fun (f : string) (fs : fundefs) : option (list string * list gstmt) :=
+  match fs with
+  | [] => None
+  | (g, d) :: tl => if String.eqb f g then Some d else lookup_fun f tl
+  end.
+
+Fixpoint bind_params (ps : list string) (vs : list gval) : option env :=
+  match ps, vs with
+  | [], [] => Some []
+  | p :: pt, v :: vt => match bind_params pt vt with Some en => Some ((p, v) :: en) | None => None end
+  | _, _ => None
+  end.
+
+(* [fuel] bounds the depth of nested calls *)
+Fixpoint callf_n (fuel : nat) (funs : fundefs) (f : string) (args : list gval) : option (list gval) :=
+  match fuel with
+  | O => None
+  | S k =>
+    match lookup_fun f funs with
+    | Some (ps, body) =>
+      match bind_params ps args with
+      | Some en =>
+        match run_l (callf_n k funs) en body with
+        | RRet _ vs => Some vs
+        | RFall _ => Some []
+        | RPanic => None
+        end
+      | None => None
+      end
+    | None => None
     end
   end.
 
-Fixpoint exec (en : env) (l : list gstmt) {struct l} : outcome :=
-  match l with
-  | [] => Fall en
-  | s' :: tl => match exec_s en s' with Fall en' => exec en' tl | o => o end
+(* ---------------- entry points ---------------- *)
+(* a function that calls no translated function: only what it returns *)
+Inductive outcome := Panic | Fall (en : env) | Ret (vs : list gval).
+Definition no_funs (f : string) (args : list gval) : option (list gval) := None.
+Definition exec (en : env) (l : list gstmt) : outcome :=
+  match run_l no_funs en l with
+  | RPanic => Panic
+  | RFall en' => Fall en'
+  | RRet _ vs => Ret vs
+  end.
+
+(* a method: the receiver's fields when it returns, and what it returns
+   ([] for a method without results that reaches its end) *)
+Definition run_method (funs : fundefs) (recv : string) (en : env) (body : list gstmt) : option (gval * list gval) :=
+  match run_l (callf_n 2 funs) en body with
+  | RRet en' vs => match lookup recv en' with Some sv => Some (sv, vs) | None => None end
+  | RFall en' => match lookup recv en' with Some sv => Some (sv, []) | None => None end
+  | RPanic => None
   end.
 
 (* helpers to build input values *)
